@@ -121,13 +121,14 @@ def build(spec, weather_df=None):
         )
     co2 = spec.get("co2")
     if co2 is not None:
+        ref = {"ref_concentration": float(co2["ref"])} if "ref" in co2 else {}
         if "constant" in co2:
             kw["co2_concentration"] = CO2(constant_conc=True,
-                                          current_concentration=float(co2["constant"]))
+                                          current_concentration=float(co2["constant"]), **ref)
         elif "series" in co2:
             df = pd.DataFrame(co2["series"], columns=["year", "ppm"]).astype(
                 {"year": int, "ppm": float})
-            kw["co2_concentration"] = CO2(co2_data=df)
+            kw["co2_concentration"] = CO2(co2_data=df, **ref)
         elif co2.get("default"):
             kw["co2_concentration"] = CO2()
     return kw
